@@ -108,6 +108,7 @@ type Matcher struct {
 	T           string          `json:"t,omitempty"`
 	Ret         json.RawMessage `json:"ret,omitempty"`
 	Err         string          `json:"err,omitempty"`
+	Shared      string          `json:"shared,omitempty"`
 }
 
 func strVal(s string) *Val   { return &Val{K: "str", B64: base64.StdEncoding.EncodeToString([]byte(s))} }
